@@ -190,6 +190,13 @@ func C05(c *core.Ctx) {
 	c.Explain = "Narrow claim. Longest-prefix-match correctness over all update histories and observational identity of the two FIB implementations are behavioural and are NOT decided. Decided structural necessary conditions, for every implementation of table.FibStrategy discovered through the type checker: (R5.1) the store strategy=nil in UnSetStrategyEnc is unreachable for the empty (root) name — the root strategy can be replaced but not unset; (R5.2) a lookup result is produced only from a node/entry whose next-hop list is non-empty (FindNextHopsEnc) or whose strategy is non-nil (FindStrategyEnc), and the listings append only such entries; (R5.4) the name-tree descent recurses only into a child whose component equals the name's component at that depth, next-hop update/removal act only on the entry whose face id equals the argument; (R5.3) sibling agreement of the implementations on the lock kind per interface method."
 	c.RuleText = "instances: FibStrategy implementations × interface methods, discovered on each run. Non-trivial = has at least one branch edge to decide."
 	p := c.P
+	// ---- R5.5 (shared with C08 R8.4/R8.5) pruning removes only nodes that hold nothing:
+	// a prune that unlinks a node (or an ancestor) still carrying next hops, a strategy or
+	// children makes later lookups miss a registered prefix
+	c.Import(C08, "R5.5", "FIB pruning can remove a live entry, so a later longest-prefix lookup misses a prefix that is still registered", 4, func(k string) bool {
+		return (strings.HasPrefix(k, "R8.4:") && (strings.Contains(k, "fibStrategyTreeEntry") || strings.Contains(k, "FibStrategyHashTable"))) ||
+			strings.HasPrefix(k, "R8.5:hashtable-virtual-entries-reclaimed")
+	})
 	fib := p.Named("fw/table", "FibStrategy")
 	if fib == nil {
 		c.Und("R5.1", "anchor:FibStrategy", "-", "interface not found")
